@@ -13,19 +13,12 @@ def size_candidates(dur, rate):
 
 
 def visible_candidates(total, rate, max_read):
-    """number of visible samples: min(total, round(max_read*rate)); at an exact
-    .5 either neighbour is accepted (the statement does not fix the tie rule)."""
+    """number of visible samples: min(total, round(max_read*rate)) - `round` as the
+    statement spells it for this Python library: the built-in round() of the
+    product (ties to even, e.g. 62.5 -> 62)."""
     if max_read is None:
         return {total}
-    q = Fraction(max_read) * rate
-    fl = math.floor(q)
-    frac = q - fl
-    if abs(frac - Fraction(1, 2)) <= Fraction(1, 10 ** 9):
-        c = {fl, fl + 1}
-    else:
-        c = {fl + 1 if frac > Fraction(1, 2) else fl}
-    c.add(round(max_read * rate))  # the same product evaluated in IEEE doubles
-    return {max(0, min(total, x)) for x in c}
+    return {max(0, min(total, round(max_read * rate)))}
 
 
 def blocks(vis, block, hop):
@@ -50,7 +43,7 @@ def selftest():
     assert blocks(8, 4, 2) == [(0, 4), (2, 6), (4, 8)]
     assert blocks(9, 4, 4) == [(0, 4), (4, 8), (8, 9)]
     assert blocks(7, 3, 1) == [(0, 3), (1, 4), (2, 5), (3, 6), (4, 7)]
-    assert visible_candidates(10, 10, 0.55) == {5, 6}
+    assert visible_candidates(10, 10, 0.55) == {6} and visible_candidates(100, 1000, 0.0625) == {62}
     assert visible_candidates(10, 10, 0.3) == {3}
     assert visible_candidates(10, 10, 5) == {10}
     return 10
